@@ -4,3 +4,4 @@ import TelSpec.Dynamic
 import TelSpec.Program
 import TelSpec.Decode
 import TelSpec.Loop
+import TelSpec.Prec
